@@ -136,6 +136,12 @@ def multi_family():
         G('multi-deep-alt', [Rule('M', S(ak('x'), Opt(A(S(Str('p'), A(ak('y'), Str('n'))), Str('q')))))], tags=['multi']),
         G('multi-ung-3', [Rule('M', Ung([ak('x'), ak('y'), Asg('b', '=', ID)]))], tags=['multi']),
         G('multi-str-values', [Rule('M', S(Asg('k', '=', Str('a')), Opt(Asg('k', '=', Str('b')))))], tags=['multi']),
+        # a group of one assignment; a user rule that happens to be called 'sep'
+        G('multi-ung-single-asg', [Rule('M', S(Str('x'), Ung([Asg('a', '=', ID)]), Opt(ak('y'))))], tags=['multi']),
+        G('multi-rule-named-sep', [Rule('M', Asg('items', '+=', Ref('sep'), sep=Str(','))),
+                                   Rule('sep', S(Str('s'), Asg('name', '=', ID)))], tags=['multi']),
+        G('multi-match-rule-named-sep', [Rule('M', S(Asg('items', '+=', Ref('sep')), Opt(Asg('more', '*=', Ref('sep'), sep=Str(';'))))),
+                                         Rule('sep', Re(r's\d'))], tags=['multi']),
         G('multi-id-values', [Rule('M', S(Asg('n', '=', ID), A(S(Str(','), Asg('n', '=', ID)), Str(';'))))], tags=['multi']),
     ]
     return out
@@ -199,6 +205,9 @@ KEYWORDS = [
     G('kw-unicode', [Rule('M', S(Str('é'), Asg('x', '=', ID)))], tags=['kw']),
     G('kw-escaped', [Rule('M', S(Str('fi', spelling='f\\x69'), Asg('x', '=', ID),
                                  Opt(S(Str('é', spelling='\\u00e9'), Asg('y', '=', ID)))))], tags=['kw']),
+    # literals with letters that are not identifier-like words
+    G('kw-mixed-literal', [Rule('M', S(Str('#in'), Asg('x', '=', ID), Opt(S(Str('a-b'), Asg('y', '=', ID)))))], tags=['kw']),
+    G('kw-digit-lead', [Rule('M', S(Str('0x'), Asg('h', '=', Re(r'[0-9A-F]+')), Opt(S(Str('2d'), Asg('y', '=', ID)))))], tags=['kw']),
     G('kw-digit-tail', [Rule('M', S(Str('k1'), Asg('x', '=', INT), Str('_e')))], tags=['kw']),
     G('kw-not-pred', [Rule('M', S(Star(S(Not_(Str('end')), Asg('ws', '+=', ID))), Str('end')))], tags=['kw']),
     G('kw-choice-order', [Rule('M', Plus(A(Asg('ks', '+=', Str('do')), Asg('ns', '+=', ID))))], tags=['kw']),
